@@ -1,0 +1,136 @@
+//go:build verif
+// +build verif
+
+// Contracts for the deductive verifier in /verif (comment-only file: it adds no code).
+// Syntax: see /verif/DESIGN.md section 6. Obligations are generated from the go/ssa form of
+// the functions in idl.go and discharged by SMT solvers; nothing here is executed.
+package idl
+
+//@ pred wf(p) = p != nil && 0 <= p.position && p.position <= len(p.input)
+//@ pred wf1(p) = p != nil && 0 <= p.position && p.position <= len(p.input) + 1
+//@ pred lower(c) = 97 <= c && c <= 122
+//@ pred upper(c) = 65 <= c && c <= 90
+//@ pred digit(c) = 48 <= c && c <= 57
+//@ pred alnum(c) = lower(c) || upper(c) || digit(c)
+//@ pred fieldch(c) = alnum(c) || c == 95
+//@ pred ws(c) = c == 32 || c == 9 || c == 13 || c == 10
+//@ pred tokenStart(p) = p.position >= len(p.input) || (!ws(p.input[p.position]) && p.input[p.position] != 35)
+
+//@ func (*parser).next {C05 C06 | safety: C09}
+//@   requires [pos] p != nil && 0 <= p.position && p.position <= len(p.input) + 1
+//@   modifies p.position
+//@   ensures [step] p.position == old(p.position) + 1
+//@   ensures [val] old(p.position) < len(p.input) ==> result == p.input[old(p.position)]
+//@   ensures [eof] old(p.position) >= len(p.input) ==> result == -1
+
+//@ func (*parser).backup {C05 C06 | safety: C09}
+//@   requires [pos] p != nil && 1 <= p.position
+//@   modifies p.position
+//@   ensures [step] p.position == old(p.position) - 1
+
+//@ func (*parser).advance {C05 C06 | safety: C09}
+//@   requires [pos] wf1(p)
+//@   modifies p.position, p.lineStart, p.lastComment
+//@   ensures [wf1 C05 C06 C09] wf1(p) && p.position >= old(p.position)
+//@   ensures [wf C05 C06 C09] old(p.position) <= len(p.input) ==> p.position <= len(p.input)
+//@   ensures [maximal C05] old(p.position) <= len(p.input) ==> tokenStart(p)
+//@   ensures [ret C05 C06 C09] result == (p.position < len(p.input))
+//@   loop 1 invariant [wf] wf1(p) && p.position >= old(p.position) && (old(p.position) <= len(p.input) ==> p.position <= len(p.input))
+//@   loop 1 decreases len(p.input) - p.position
+//@   loop 2 invariant [wf] wf(p) && p.position >= entry(p.position) && 0 <= start && start <= p.position
+//@   loop 2 decreases len(p.input) - p.position
+
+//@ func (*parser).advanceOnLine {C05 C06 | safety: C09}
+//@   requires [wf] wf(p)
+//@   modifies p.position
+//@   ensures [wf C05 C06 C09] wf(p) && p.position >= old(p.position)
+//@   ensures [spaces] forall i int :: old(p.position) <= i && i < p.position ==> p.input[i] == 32
+//@   loop 1 invariant [wf] wf(p) && p.position >= old(p.position)
+//@   loop 1 invariant [spaces] forall i int :: old(p.position) <= i && i < p.position ==> p.input[i] == 32
+//@   loop 1 decreases len(p.input) - p.position
+
+//@ func (*parser).readKeyword {C05 C06 | safety: C09}
+//@   requires [wf] wf(p)
+//@   modifies p.position
+//@   ensures [wf C05 C06 C09] wf(p) && p.position >= old(p.position)
+//@   ensures [text C05 C06 C09] result == p.input[old(p.position):p.position]
+//@   ensures [run] forall i int :: old(p.position) <= i && i < p.position ==> lower(p.input[i])
+//@   ensures [maximal] p.position == len(p.input) || !lower(p.input[p.position])
+//@   loop 1 invariant [wf] wf(p) && p.position >= old(p.position)
+//@   loop 1 invariant [run C05 C06] forall i int :: old(p.position) <= i && i < p.position ==> lower(p.input[i])
+//@   loop 1 decreases len(p.input) - p.position
+
+//@ func (*parser).readInterfaceName {C05 C06 | safety: C09}
+//@   requires [wf] wf(p)
+//@   modifies p.position
+//@   ensures [wf C05 C06 C09] wf(p) && p.position >= old(p.position)
+//@   ensures [text] result == p.input[old(p.position):p.position]
+//@   ensures [bound] len(result) <= 255
+
+//@ func (*parser).readFieldName {C05 C06 | safety: C09}
+//@   requires [wf] wf(p)
+//@   modifies p.position
+//@   ensures [wf C05 C06 C09] wf(p) && p.position >= old(p.position)
+//@   ensures [text C05 C06 C09] result == p.input[old(p.position):p.position]
+//@   ensures [first] result != "" ==> lower(p.input[old(p.position)])
+//@   ensures [run] forall i int :: old(p.position) <= i && i < p.position ==> fieldch(p.input[i])
+//@   ensures [maximal] result != "" ==> (p.position == len(p.input) || !fieldch(p.input[p.position]))
+//@   loop 1 invariant [wf] wf(p) && p.position > old(p.position)
+//@   loop 1 invariant [run C05 C06] forall i int :: old(p.position) <= i && i < p.position ==> fieldch(p.input[i])
+//@   loop 1 decreases len(p.input) - p.position
+
+//@ func (*parser).readTypeName {C05 C06 | safety: C09}
+//@   requires [wf] wf(p)
+//@   modifies p.position
+//@   ensures [wf C05 C06 C09] wf(p) && p.position >= old(p.position)
+//@   ensures [text C05 C06 C09] result == p.input[old(p.position):p.position]
+//@   ensures [run] forall i int :: old(p.position) <= i && i < p.position ==> alnum(p.input[i])
+//@   ensures [maximal] p.position == len(p.input) || !alnum(p.input[p.position])
+//@   loop 1 invariant [wf] wf(p) && p.position >= old(p.position)
+//@   loop 1 invariant [run C05 C06] forall i int :: old(p.position) <= i && i < p.position ==> alnum(p.input[i])
+//@   loop 1 decreases len(p.input) - p.position
+
+//@ func (*parser).readStructType {C05 C06 | safety: C09}
+//@   requires [wf] wf(p)
+//@   decreases 2 * (len(p.input) - p.position)
+//@   modifies p.position, p.lineStart, p.lastComment
+//@   ensures [wf C05 C06 C09] result != nil ==> wf(p)
+//@   ensures [wf1 C05 C06 C09] wf1(p) && p.position >= old(p.position)
+//@   ensures [fresh C05 C06 C09] result != nil ==> fresh(result)
+//@   loop 1 invariant [wf] wf(p) && p.position > old(p.position)
+//@   loop 1 decreases len(p.input) - p.position
+
+//@ func (*parser).readType {C05 C06 | safety: C09}
+//@   requires [wf] wf(p)
+//@   decreases 2 * (len(p.input) - p.position) + 1
+//@   modifies p.position, p.lineStart, p.lastComment
+//@   ensures [wf C05 C06 C09] result != nil ==> wf(p)
+//@   ensures [wf1 C05 C06 C09] wf1(p) && p.position >= old(p.position)
+//@   ensures [fresh C05 C06 C09] result != nil ==> fresh(result)
+
+//@ func (*parser).readAlias {C05 C06 | safety: C09}
+//@   requires [wf] wf(p)
+//@   modifies p.position, p.lineStart, p.lastComment
+//@   ensures [wf C05 C06 C09] result1 == nil ==> wf(p) && p.position >= old(p.position) && result0 != nil && fresh(result0)
+
+//@ func (*parser).readMethod {C05 C06 | safety: C09}
+//@   requires [wf] wf(p)
+//@   modifies p.position, p.lineStart, p.lastComment
+//@   ensures [wf C05 C06 C09] result1 == nil ==> wf(p) && p.position >= old(p.position) && result0 != nil && fresh(result0)
+
+//@ func (*parser).readError {C05 C06 | safety: C09}
+//@   requires [wf] wf(p)
+//@   modifies p.position, p.lineStart, p.lastComment
+//@   ensures [wf1 C05 C06 C09] result1 == nil ==> wf1(p) && p.position >= old(p.position) && result0 != nil && fresh(result0)
+//@   ensures [wf C05 C06] result1 == nil ==> wf(p)
+
+//@ func (*parser).readIDL {C05 C06 | safety: C09}
+//@   requires [wf] wf(p)
+//@   modifies p.position, p.lineStart, p.lastComment
+//@   ensures [nonnil C05 C06 C09] result1 == nil ==> result0 != nil && fresh(result0)
+//@   loop 1 invariant [wf] wf1(p)
+//@   loop 1 decreases len(p.input) - p.position
+
+//@ func New {C05 C06 | safety: C09}
+//@   ensures [notree C06] result1 != nil ==> result0 == nil
+//@   ensures [desc C05] result1 == nil ==> result0 != nil && result0.Description == description
